@@ -321,6 +321,16 @@ def cases(tier, seed):
                               (N[0], N[1], k, i, j, o),
                         "kind": "centre", "N": list(N), "rnz": k, "i": i,
                         "j": j, "off": o, "tier": tier})
+    # detectors whose pixels are not square
+    for isp, sp in enumerate([(0.1, 0.12), (0.15, 0.1), (0.1, 0.07)]):
+        for k in ([0] if tier == "quick" else [0, 2]):
+            for (i, j) in ([(2, 2), (0, 4)] if tier == "quick" else
+                           [(0, 0), (2, 2), (4, 4), (0, 4)]):
+                out.append({
+                    "id": "centre:rect-pixels#%d:rnz#%d:lat=%d,%d" %
+                          (isp, k, i, j),
+                    "kind": "centre", "N": 80, "rnz": k, "i": i, "j": j,
+                    "off": 0, "tier": tier, "spacing": list(sp)})
     # make_center_priors: origin x spacing x uncertainty
     for N in ([60] if tier == "quick" else [60, 100]):
         for k in ([0, 2] if tier == "quick" else range(len(RNZ))):
@@ -1092,7 +1102,12 @@ def _run_centre(case, ck):
     what = ("center_find(Mie hologram, detector %dx%d px, sphere r=%g n=%g "
             "z=%g at pixel (%.2f, %.2f))" % ((nx, ny) + tuple(rnz) +
                                             (px, py)))
-    holo = _holo(N, rnz, (px * SPACING, py * SPACING))
+    if case.get("spacing"):
+        sx, sy = case["spacing"]
+        what += " pixels %g x %g" % (sx, sy)
+        holo = _holo(N, rnz, (px * sx, py * sy), spacing=(sx, sy))
+    else:
+        holo = _holo(N, rnz, (px * SPACING, py * SPACING))
     ck.trans += 1
     snap = _Snap(holo)
     c = np.asarray(_t(what, center_find, holo), dtype=float)
